@@ -3283,10 +3283,6 @@ RCP<const Basic> Beta::create(const RCP<const Basic> &a,
 RCP<const Basic> beta(const RCP<const Basic> &x, const RCP<const Basic> &y)
 {
     // Only special values are being evaluated
-    if (eq(*add(x, y), *one)) {
-        return ComplexInf;
-    }
-
     if (is_a<Integer>(*x)) {
         RCP<const Integer> x_int = rcp_static_cast<const Integer>(x);
         if (x_int->is_positive()) {
@@ -3344,8 +3340,13 @@ RCP<const Basic> beta(const RCP<const Basic> &x, const RCP<const Basic> &y)
         if (is_a<const Rational>(*y)
             and get_den((down_cast<const Rational &>(*y)).as_rational_class())
                     == 2) {
+            RCP<const Basic> sum = add(x, y);
+            if (not down_cast<const Integer &>(*sum).is_positive()) {
+                // gamma(x + y) has a pole while gamma(x), gamma(y) are finite
+                return zero;
+            }
             return div(mul(gamma_multiple_2(x), gamma_multiple_2(y)),
-                       gamma_positive_int(add(x, y)));
+                       gamma_positive_int(sum));
         }
     }
     return Beta::from_two_basic(x, y);
